@@ -100,7 +100,6 @@ func vfRefcoordBody(maxL int) {
 // H_C04_refcoord: RefCoordinates maps [refstart,refstart+reflen) of the ungapped reference to the smallest alignment window containing exactly these reference residues; anything else is an error.
 // bounds: 2 rows (reference = second row), L<=4 columns, every residue any printable ASCII byte (so gaps anywhere in the reference, all-gap reference included), refstart/reflen arbitrary 64-bit ints
 // outside: L>4; more than 2 rows (the other rows are not read)
-//verif: merge=0
 func H_C04_refcoord() { vfRefcoordBody(4) }
 
 // H_C04_refcoord_deep: as H_C04_refcoord with L<=6.
@@ -294,15 +293,15 @@ func H_C04_concat() {
 	vfConcatCheck(a, c, an, cn, ao, co, La, Lc)
 }
 
-// H_C04_concat_deep: as H_C04_concat with up to 3 rows and 3 columns per side.
-// bounds: 1..3 rows per side, names from a pool of 4, lengths 0..3
+// H_C04_concat_deep: as H_C04_concat with up to 3 rows per side and lengths 1 or 3.
+// bounds: 1..3 rows per side, names from a pool of 4 in every order, lengths 1 or 3 on each side
 // outside: larger shapes
 //verif: tier=thorough
 func H_C04_concat_deep() {
 	na := nondetRange(1, 3)
 	nc := nondetRange(1, 3)
-	La := nondetRange(0, 3)
-	Lc := nondetRange(0, 3)
+	La := 1 + 2*nondetRange(0, 1)
+	Lc := 1 + 2*nondetRange(0, 1)
 	an := vfPickNames(na)
 	cn := vfPickNames(nc)
 	a, ao := vfSymAlignNamed(AMINOACIDS, an, La, vfPrintable)
@@ -718,8 +717,8 @@ func vfDiffBody(maxN, maxL int) {
 // outside: alignments that already contain '.', L>3, n>3
 func H_C04_diff_roundtrip() { vfDiffBody(3, 3) }
 
-// H_C04_diff_roundtrip_deep: as H_C04_diff_roundtrip with n<=4, L<=5.
-// bounds: n<=4, L<=5, residues printable ASCII except '.'
+// H_C04_diff_roundtrip_deep: as H_C04_diff_roundtrip with n<=3, L<=5.
+// bounds: n<=3, L<=5, residues printable ASCII except '.'
 // outside: larger shapes
 //verif: tier=thorough
-func H_C04_diff_roundtrip_deep() { vfDiffBody(4, 5) }
+func H_C04_diff_roundtrip_deep() { vfDiffBody(3, 5) }
